@@ -1,6 +1,14 @@
 (* Termination of the table-driven LR loop (to be merged into C01 / C04 / C07):
-   statements in LR/TermSpec.v, proofs in LR/Term{Graph,Trees,Stack,Proofs,Refute}.v *)
-From GV Require Import LR.TermSpec LR.TermGraph LR.TermProofs.
+   statements in LR/TermSpec.v, proofs in LR/Term*.v *)
+From GV Require Import LR.TermSpec LR.TermGraph LR.TermProofs LR.TermComplete LR.TermValidated.
+
+Theorem LRterm_lr_terminates_validated : lr_terminates_validated_stmt.
+Proof. exact lr_terminates_validated. Qed.
+Print Assumptions LRterm_lr_terminates_validated.
+
+Theorem LRterm_lr_terminates : lr_terminates_stmt.
+Proof. exact lr_terminates. Qed.
+Print Assumptions LRterm_lr_terminates.
 
 Theorem LRterm_lr_terminates_b : lr_terminates_b_stmt.
 Proof. exact lr_terminates_b. Qed.
@@ -14,9 +22,17 @@ Theorem LRterm_acyclic_b_sound : acyclic_b_sound_stmt.
 Proof. exact acyclic_b_sound. Qed.
 Print Assumptions LRterm_acyclic_b_sound.
 
+Theorem LRterm_acyclic_b_complete : acyclic_b_complete_stmt.
+Proof. exact acyclic_b_complete. Qed.
+Print Assumptions LRterm_acyclic_b_complete.
+
 Theorem LRterm_hlr_free_b_sound : hlr_free_b_sound_stmt.
 Proof. exact hlr_free_b_sound. Qed.
 Print Assumptions LRterm_hlr_free_b_sound.
+
+Theorem LRterm_hlr_free_b_complete : hlr_free_b_complete_stmt.
+Proof. exact hlr_free_b_complete. Qed.
+Print Assumptions LRterm_hlr_free_b_complete.
 
 Theorem LRterm_lr_terminates_validS_only_refuted : lr_terminates_validS_only_refuted_stmt.
 Proof. exact lr_terminates_validS_only_refuted. Qed.
